@@ -682,6 +682,21 @@ func gen(g *hx.Gen) {
 	craftedAEAD(g, r)
 	craftedCBC(g, r)
 	bufferBoundary(g, r)
+	// cbcCipher's oracle camouflage: after a verification error the reader drains maxPacket + 4 + MAC − (first block)
+	// more bytes, i.e. maxPacket + 4 + MAC in total. Only a stream longer than that shows the exact amount.
+	for _, c := range cbcCiphers {
+		k := newKeys(r, c, hx.Pick(r, macs))
+		h := header(r, k, uint32(r.PickInt(0, 3, 7, maxPacket+1)), 4) // a first block that fails the length checks
+		emit(g, k, 1, append(h, r.Bytes(maxPacket+4+macSizes[k.m]+r.Range(20, 90))...), "cbc-drain-full-length")
+	}
+	// constructors with a key of the wrong size (the error returns of newAESCTR / newGCMCipher / newAESCBCCipher /
+	// newTripleDESCBCCipher): no cipher must come out — both sides answer bad-op
+	for _, pr := range [][2]string{{"aes128-ctr", "hmac-sha1"}, {"aes192-ctr", "hmac-sha2-256"}, {"aes256-ctr", "hmac-sha2-512-etm@openssh.com"},
+		{"aes128-cbc", "hmac-sha1"}, {"3des-cbc", "hmac-sha1-96"}, {"aes128-gcm@openssh.com", "-"}, {"aes256-gcm@openssh.com", "-"}} {
+		k := newKeys(r, pr[0], pr[1])
+		k.key = k.key[:len(k.key)-1]
+		emit(g, k, 1, r.Bytes(40), "constructor-wrong-key-size")
+	}
 	// crafted headers: every CBC pair and one pair of every other family always, the rest rotating in the quick tier
 	for _, pr := range allPairs() {
 		always := strings.Contains(pr[0], "cbc") || pr[1] == "-" || (pr[0] == "aes128-ctr" && (pr[1] == "hmac-sha2-256" || pr[1] == "hmac-sha2-256-etm@openssh.com")) || pr[0] == "arcfour128" && pr[1] == "hmac-sha1"
